@@ -54,6 +54,7 @@ type Client struct {
 	reset      bool
 
 	nextReq uint32
+	ridBase int // scenario connection index + 1 (0 for connections outside the request-id scheme)
 
 	// server side observations
 	rt              *hwebsocket.RealtimeHandler
@@ -260,7 +261,11 @@ func newMsgOfType(t int32) proto.Message {
 
 func (c *Client) NextReqID() uint32 {
 	c.nextReq++
-	return uint32(c.ID+1)*100000 + c.nextReq
+	base := c.ridBase
+	if base == 0 {
+		base = c.ID + 1
+	}
+	return uint32(base)*100000 + c.nextReq
 }
 
 func (c *Client) maskKey() *[4]byte {
